@@ -117,6 +117,8 @@ def linear_problem(low, high, rate, utilisation, allocation, interval, before, a
     """The statement for one LinearController step; (kind, text) if broken"""
     down, up = utilisation < low, allocation > high
     amount = Fraction(rate) * Fraction(interval)
+    if isinstance(after, bool) or not isinstance(after, (int, float)) or not math.isfinite(after):
+        return "demand-not-a-number", "demand became %r" % (after,)
     delta = Fraction(after) - Fraction(before)
     if abs(delta) > amount:
         return "exceeds-rate-x-interval", "changed by %s, more than rate x interval = %s" % (
@@ -153,11 +155,10 @@ def relsupply_problem(low, high, low_scale, high_scale, utilisation, allocation,
         wanted.append(("high-scale", supply * high_scale))
     if not wanted:
         wanted.append(("unscaled", supply))
-    try:
-        if any(close(after, value) for _, value in wanted):
-            return None
-    except TypeError:
-        return "got-other", "demand is %r" % (after,)
+    if isinstance(after, bool) or not isinstance(after, (int, float)):
+        return "demand-not-a-number", "demand became %r" % (after,)
+    if any(close(after, value) for _, value in wanted):
+        return None
     got = "other"
     for name, value in (("low-scale", supply * low_scale), ("high-scale", supply * high_scale),
                         ("unscaled", supply)):
